@@ -76,6 +76,64 @@ def thermal_hamiltonian_rule(chk, src):
     chk.ob("thermal-hamiltonian", "energies are expectation values of the requested Hamiltonian", any(x.endswith(".expectation(self.h_mpo)") for x in e), pm.where, e, "mps.expectation(self.h_mpo)", line=pm.node.lineno)
 
 
+
+def auxiliary_space_rule(chk, src):
+    """purification on trees: add_auxiliary_space doubles every physical basis set with an auxiliary copy carrying no quantum number and keeps the topology;
+    the state builder addresses the auxiliary degrees of freedom by the same names"""
+    from ..syminterp import SymInterp, Sym, OpenSym
+    TB = "renormalizer/tn/treebase.py"
+    fi = src.func(TB, "BasisTree.add_auxiliary_space")
+    copies = []
+
+    class B(Sym):
+        def __init__(self, name, dummy=False):
+            super().__init__(name)
+            self.dofs, self.sigmaqn, self.dummy = f"dofs({name})", f"sigmaqn({name})", dummy
+
+        def copy(self, new_dof):
+            c = B(f"copy({self._name})")
+            c.dofs = new_dof
+            copies.append((self, c))
+            return c
+    nodes = [Sym("n0", basis_sets=[B("b0"), B("b1")]), Sym("n1", basis_sets=[B("d", dummy=True)]), Sym("n2", basis_sets=[B("b2")])]
+    made, conn, trees = [], [], []
+
+    class TreeTag(Sym):
+        def __call__(self, root):
+            trees.append(root)
+            return ("tree", root)
+    it = SymInterp(src, None, {"TreeNodeBasis": lambda bs: made.append(list(bs)) or ("node", len(made) - 1), "copy_connection": lambda a, b: conn.append((list(a), list(b))),
+                               "BasisTree": TreeTag("BasisTree"), "np": OpenSym("np"), "BasisDummy": "BasisDummy"})
+    it.builtins["isinstance"] = lambda x, t: bool(getattr(x, "dummy", False)) if t == "BasisDummy" else False
+
+    class Me(Sym):
+        def __iter__(self):
+            return iter(nodes)
+    me = Me("tree", node_list=nodes)
+    out = it.call_function(fi, [me])
+    ok = len(made) == 3 and len(made[0]) == 4 and len(made[1]) == 1 and len(made[2]) == 2
+    detail_found = [[getattr(b, "_name", b) for b in m] for m in made]
+    if ok:
+        p0, q0, p1, q1 = made[0]
+        ok = p0 is nodes[0].basis_sets[0] and p1 is nodes[0].basis_sets[1] and q0.dofs == ("Q", "dofs(b0)") and q1.dofs == ("Q", "dofs(b1)") \
+            and repr(q0.sigmaqn) == "zeros_like('sigmaqn(b0)')" and made[1][0] is nodes[1].basis_sets[0] and made[2][1].dofs == ("Q", "dofs(b2)")
+    okc = conn == [(nodes, [("node", 0), ("node", 1), ("node", 2)])] and trees == [("node", 0)]
+    chk.ob("purification", "add_auxiliary_space: [P, Q(P)] per physical basis set, dummies kept single, Q without quantum number, same topology", ok and okc, fi.where,
+           {"node basis sets": detail_found, "Q dofs": [getattr(c, "dofs", None) for _, c in copies], "Q sigmaqn": [repr(getattr(c, "sigmaqn", None)) for _, c in copies]},
+           "P then its auxiliary copy named (label, P.dofs) with zero sigmaqn; connectivity copied from the original node list", line=fi.node.lineno,
+           detail="the purified state lives on physical x auxiliary space: an auxiliary index with quantum numbers, a doubled dummy or a different node order breaks the trace over the auxiliary space")
+    # name agreement with the state builder
+    mx = src.func("renormalizer/tn/utils_eph.py", "max_entangled_ex")
+    a = fi.node.args
+    default = dict(zip([x.arg for x in a.args[len(a.args) - len(a.defaults):]], [unparse(d) for d in a.defaults])).get(fi.params()[1])
+    used = sorted({unparse(n) for n in ast.walk(mx.node) if isinstance(n, ast.Tuple) and len(n.elts) == 2 and isinstance(n.elts[0], ast.Constant) and isinstance(n.elts[0].value, str)
+                   and "dofs" in unparse(n.elts[1])})
+    skip = [unparse(n).replace(" ", "") for n in ast.walk(mx.node) if isinstance(n, ast.Compare) and "dof[0]" in unparse(n)]
+    chk.ob("purification", "max_entangled_ex addresses the auxiliary space by the names add_auxiliary_space creates", default == "'Q'" and used == ["('Q', b.dofs)"] and any(x.endswith("=='Q'") for x in skip), mx.where,
+           {"default label": default, "operator dof": used, "skip test": skip}, {"default label": "'Q'", "operator dof": ["('Q', b.dofs)"], "skip test": "b.dof[0] == 'Q'"}, line=mx.node.lineno,
+           detail="the excitation operator must act on (P, its own auxiliary copy); a different naming creates the pair on the wrong auxiliary index or raises for a missing degree of freedom")
+
+
 def run(chk):
     src = chk.src
     chk.explanation = (
@@ -94,7 +152,8 @@ def run(chk):
     thermal_hamiltonian_rule(chk, src)
     chk.rule("solver-sibling", "Krylov and ODE branch integrate the same exponent in imaginary time", 6)
     chk.rule("imag-normalise", "evolve(): complex (imaginary) step => state and prefactor normalised; real step => tensors only", 2)
-    chk.rule("purification", "MpDm.from_mps embeds the state diagonally; ancilla carries no quantum number; operator sites carry (q, -q)", 4)
+    chk.rule("purification", "MpDm.from_mps embeds the state diagonally; ancilla carries no quantum number; operator sites carry (q, -q); tree auxiliary space", 6)
+    auxiliary_space_rule(chk, src)
     dt, off, H = sp.Symbol("dt"), sp.Symbol("offset"), sp.Symbol("H")
     red = {}
     for rel, qual in ((MPS, "Mps.evolve_exact"), (MPDM, "MpDm.evolve_exact")):
